@@ -58,7 +58,7 @@ func newPause(s storage.Store) *pauseStore {
 }
 
 func (p *pauseStore) PutChangeSet(a, b map[string][]byte) error {
-	switch p.mode.Load() {
+	switch p.mode.Swap(0) { // one shot: the flush being stepped through; later ones pass
 	case 1:
 		p.reached <- struct{}{}
 		<-p.goWrite
